@@ -29,7 +29,27 @@ def staged_call(variant):
         from bycycle.utils import drop_samples_df
         method = o.get('burst_method', 'cycles')
         kw = {} if o.get('find_extrema_kwargs') is None else {'find_extrema_kwargs': o['find_extrema_kwargs']}
-        shp = pj.relabel(compute_shape_features(sig, fs, f_range, center_extrema=o.get('center_extrema', 'peak'), **kw), variant)
+        center = o.get('center_extrema', 'peak')
+        if (variant // 4) % 2 == 0:
+            shp = compute_shape_features(sig, fs, f_range, center_extrema=center, **kw)
+        else:
+            # one level further down: the shape table composed from the SECONDARY public functions, as documented in their own examples
+            # (compute_symmetry without the optional durations: it computes them itself; compute_band_amp with its default filter length)
+            from bycycle.features import compute_cyclepoints
+            from bycycle.features.shape import compute_durations, compute_extrema_voltage, compute_symmetry, compute_band_amp
+            from bycycle.utils.dataframes import rename_extrema_df
+            fek = {'filter_kwargs': {'n_cycles': 3}} if o.get('find_extrema_kwargs') is None else o['find_extrema_kwargs']
+            s_ = sig if center == 'peak' else -sig
+            smp = compute_cyclepoints(s_, fs, f_range, **fek)
+            period, time_peak, time_trough = compute_durations(smp)
+            volt_peak, volt_trough = compute_extrema_voltage(smp, s_)
+            sym = compute_symmetry(smp, s_) if variant % 2 else compute_symmetry(smp, s_, period, time_peak, time_trough)
+            band = compute_band_amp(smp, s_, fs, f_range) if variant % 3 else compute_band_amp(smp, s_, fs, f_range, 3)
+            shp = pd.DataFrame({'period': period, 'time_peak': time_peak, 'time_trough': time_trough, 'volt_peak': volt_peak, 'volt_trough': volt_trough,
+                                'time_decay': sym['time_decay'], 'time_rise': sym['time_rise'], 'volt_decay': sym['volt_decay'], 'volt_rise': sym['volt_rise'],
+                                'volt_amp': sym['volt_amp'], 'time_rdsym': sym['time_rdsym'], 'time_ptsym': sym['time_ptsym'], 'band_amp': band})
+            shp = rename_extrema_df(center, pd.concat((shp, smp), axis=1))
+        shp = pj.relabel(shp, variant)
         tk, bk = dict(o.get('threshold_kwargs') or {}), dict(o.get('burst_kwargs') or {})
         if method == 'amp':                # the documented plumbing of the two option sets, done by the user
             bk['fs'], bk['f_range'] = fs, f_range
